@@ -26,7 +26,7 @@ EXTENDS Integers, Sequences, SequencesExt, FiniteSets, TLC, Json, IOUtils
 
 CONSTANTS MaxLen,       \* longest string explored by the scanner machine
           Alphabet,     \* its characters (one-character strings)
-          Mut           \* model mutants switched on (sensitivity tests only); {} is the specification
+          Mut           \* wrong rules (MUT_...) switched on in the machine, for sensitivity tests only; {} is the specification
 
 ForceSeq(f) == f \o <<>>      \* TLC: evaluate a function constructor once, into a tuple
 Explode(s) == ForceSeq([i \in 1..Len(s) |-> SubSeq(s, i, i)])
@@ -71,7 +71,7 @@ Step(st, c, D) ==
          IF st.pend = "-" /\ c = "-" THEN OpenComment("LineComment")                         \* 12.6.3
          ELSE IF st.pend = "/" /\ c = "*" THEN OpenComment("BlockComment")                   \* 12.6.4
          ELSE IF st.pend = "*" /\ c = "/" THEN Keep("Code", "")                              \* (only with DevStarSlashUnitInCode)
-         ELSE IF c = DQ /\ DevCommentMarkerInString \notin D /\ "MUT_NoStringMode" \notin Mut
+         ELSE IF c = DQ /\ DevCommentMarkerInString \notin D /\ "MUT_NoStringMode" \notin D
               THEN Keep("InString", "")                                                      \* 12.14 cstring opens
          ELSE Keep("Code", IF c \in {"-", "/"} THEN c
                            ELSE IF c = "*" /\ DevStarSlashUnitInCode \in D THEN "*" ELSE "")
@@ -79,16 +79,16 @@ Step(st, c, D) ==
          Keep(IF c = DQ THEN "Code" ELSE "InString", "")                                     \* "" = close + reopen
     [] st.mode = "LineComment" ->
          IF c = NL THEN [Keep("Code", "") EXCEPT !.open = 0]                                 \* ends at the end of the line (the new-line stays)
-         ELSE IF st.pend = "-" /\ c = "-" /\ "MUT_LineCommentOnlyToEol" \notin Mut
+         ELSE IF st.pend = "-" /\ c = "-" /\ "MUT_LineCommentOnlyToEol" \notin D
               THEN [Drop("Code", "") EXCEPT !.open = 0]                                      \* ... or at the next pair of hyphens
          ELSE Drop("LineComment", IF c = "-" THEN "-" ELSE "")                               \* "/*" and "*/" mean nothing here
     [] st.mode = "BlockComment" ->
-         IF st.pend = "/" /\ c = "*" /\ "MUT_BlockNoNesting" \notin Mut
+         IF st.pend = "/" /\ c = "*" /\ "MUT_BlockNoNesting" \notin D
               THEN [Drop("BlockComment", "") EXCEPT !.depth = @ + 1]                         \* nested opening
          ELSE IF st.pend = "*" /\ c = "/"
               THEN (IF st.depth = 1 THEN [Drop("Code", "") EXCEPT !.depth = 0, !.open = 0]
                     ELSE [Drop("BlockComment", "") EXCEPT !.depth = @ - 1])
-         ELSE IF c = NL /\ DevBlockCommentNewlinesBlanked \notin D /\ "MUT_BlockEatsNewline" \notin Mut
+         ELSE IF c = NL /\ DevBlockCommentNewlinesBlanked \notin D /\ "MUT_BlockEatsNewline" \notin D
               THEN Keep("BlockComment", "")                                                  \* line structure survives
          ELSE Drop("BlockComment", IF c \in {"/", "*"} THEN c ELSE "")                       \* "--" means nothing here
 
@@ -197,10 +197,11 @@ RunInvariants(R) ==
   /\ InvMaskShape(R) /\ InvLinesPreserved(R) /\ InvStringsOpaque(R)
   /\ InvLineComment(R) /\ InvBlockNesting(R) /\ InvOnlineEqualsLookahead(R)
 
-\* a run of the step function with the comment history kept beside it (what the machine below does)
-RunStep(R, c) ==
+\* a run of the step function with the comment history kept beside it (what the machine below does);
+\* D may also name deliberately wrong rules (MUT_...), used only to show that the invariants bite
+RunStepD(R, c, D) ==
   LET st == [mode |-> R.mode, depth |-> R.depth, pend |-> R.pend, kept |-> R.kept, pos |-> Len(R.text), open |-> R.open]
-      s2 == Step(st, c, {})
+      s2 == Step(st, c, D)
       n == Len(R.text) + 1
       closed == st.mode \in {"LineComment", "BlockComment"} /\ s2.mode = "Code"
       rec == [from |-> st.open, to |-> IF c = NL THEN n - 1 ELSE n,
@@ -208,8 +209,10 @@ RunStep(R, c) ==
               by |-> IF st.mode = "BlockComment" THEN "*/" ELSE IF c = NL THEN "nl" ELSE "--"]
   IN [text |-> Append(R.text, c), mode |-> s2.mode, depth |-> s2.depth, pend |-> s2.pend, kept |-> s2.kept,
       open |-> s2.open, cmts |-> IF closed THEN Append(R.cmts, rec) ELSE R.cmts]
+RunStep(R, c) == RunStepD(R, c, Mut)
 Run0 == [text |-> <<>>, mode |-> "Code", depth |-> 0, pend |-> "", kept |-> <<>>, open |-> 0, cmts |-> <<>>]
-RunOf(s) == FoldLeft(RunStep, Run0, Explode(s))
+RunOfD(s, D) == FoldLeft(LAMBDA R, c : RunStepD(R, c, D), Run0, Explode(s))
+RunOf(s) == RunOfD(s, {})
 
 ------------------------------------------------------------------------------
 (* Part 3: the scanner as a transition system, one character per step       *)
